@@ -108,7 +108,7 @@ def run(c):
 
         # negative controls of the comparator
         negs = sc.negative_controls(groups)
-        if len(negs) < 6:
+        if len(negs) < 7:
             raise vlib.Inconclusive("could not build the negative controls (%d)" % len(negs))
         neg_file = os.path.join(work, "neg.ndjson")
         sc.write_case_file(neg_file, [(h, [cs]) for _, h, cs, _ in negs])
